@@ -19,6 +19,8 @@ type InMemory struct {
 	nodes      []Cursor
 	// true until the namespace nodes in scope at the parent have been copied
 	inheritPending bool
+	// true if the element undeclares the default namespace (xmlns="")
+	noDefaultNamespace bool
 }
 
 func initElement() InMemory {
@@ -95,6 +97,21 @@ func createInMemory(root *InMemory, parse parser.Parser) error {
 }
 
 func addNamespace(ns node.Namespace, cursor *InMemory, pos int) int {
+	if ns.Prefix() == "" && ns.NamespaceValue() == "" {
+		// The default namespace is undeclared: the element has no namespace
+		// node for it, neither its own nor an inherited one.
+		cursor.noDefaultNamespace = true
+
+		for i, c := range cursor.namespaces {
+			if c.(*InMemory).node.(node.Namespace).Prefix() == "" {
+				cursor.namespaces = append(cursor.namespaces[:i], cursor.namespaces[i+1:]...)
+				break
+			}
+		}
+
+		return pos
+	}
+
 	for i, c := range cursor.namespaces {
 		nsTest := c.(*InMemory).node.(node.Namespace)
 
@@ -121,7 +138,7 @@ func inheritNamespaces(cursor *InMemory, pos int) int {
 
 	for _, i := range cursor.parent.namespaces {
 		ns := i.(*InMemory).node.(node.Namespace)
-		overridden := false
+		overridden := cursor.noDefaultNamespace && ns.Prefix() == ""
 
 		for _, c := range cursor.namespaces {
 			if c.(*InMemory).node.(node.Namespace).Prefix() == ns.Prefix() {
